@@ -34,7 +34,9 @@ theorem C04_main (w : World) (id : ConnIdent) (req : Req) (ts : TunnelState) (hw
     rw [entitled_of_passed hwf hc ha hm]; rfl
 
 /-- **C04, tunnel state changing during the request.**  `late` is whatever bridge or waiting route appears
-(for any mapping, on this or another node) while a request that found nothing at arrival is polling.  The
+(for any mapping, on this or another node) while a request that found nothing at arrival is polling, or —
+`.window` — the bridge registered between the dispatcher's own look-up and the second look-up of
+`handleTargetBridge` / the insert-if-absent of `startSourceBridge`.  The
 acknowledgement obeys `holds` for the state at arrival, and the connection is attached to the tunnel that
 appeared — or receives bytes from it — only if it is entitled to THAT tunnel's mapping. -/
 theorem C04_main_dyn (w : World) (id : ConnIdent) (req : Req) (ts : TunnelState) (late : Late)
@@ -57,7 +59,7 @@ theorem C04_main_dyn (w : World) (id : ConnIdent) (req : Req) (ts : TunnelState)
       | route m n b =>
         rcases dyn_none_cases w id req (.route m n b) with h | h | h
         · exact absurd h hr
-        · rw [h]; simp [attachedTs, Outcome.obsDyn, he]
+        · rw [h]; simp [attachedTs, Outcome.obsDyn, handleSourceBridge, he]
         · rw [h]
           by_cases hat : (handleTargetBridge w req (.route m n b)).attach = .none
           · have hd : ((handleTargetBridge w req (.route m n b)).obsDyn .none (.route m n b)).data = false := by
@@ -72,6 +74,18 @@ theorem C04_main_dyn (w : World) (id : ConnIdent) (req : Req) (ts : TunnelState)
               split
               · split <;> simp
               · simp
+            simp [attachedTs, Outcome.obsDyn, hns, he']
+      | window m =>
+        rcases dyn_none_cases w id req (.window m) with h | h | h
+        · exact absurd h hr
+        · rw [h]; simp [attachedTs, Outcome.obsDyn, handleSourceBridge]
+        · rw [h]
+          by_cases hat : (handleTargetBridge w req (.window m)).attach = .none
+          · simp [Outcome.obsDyn, hat]
+          · have hmm := window_attach_mapping hat
+            have he' : entitledB w id req (.bridge m false) = true :=
+              entitled_of_passed hwf hc ha (by simpa [tunnelMappingID] using hmm)
+            have hns := window_attach_not_source w req m
             simp [attachedTs, Outcome.obsDyn, hns, he']
 
 /-- Attachment in a changing tunnel state: whatever the connection is attached to — the tunnel found at arrival,
@@ -215,6 +229,59 @@ theorem legit_target_served (w : World) (id : ConnIdent) (m : PortMapping) (tid 
   · rw [hb]; exact handleExistingBridge_attach w _
   · simp [openTunnel, openTunnelDyn, findControlConnection, hc, ha, processCrossNodeForward, hn]
 
+/-! ## A revocation is not undone by other updates of the mapping record -/
+
+/-- **Revocation survives concurrent updates.**  Usage recording, traffic-statistics reports, status changes and
+the revocation itself are whole-record read-modify-writes; under the per-mapping lock they take effect one after
+the other.  Whatever updates come before and after the revocation, in whatever order: the record is revoked
+afterwards, and every TunnelOpen that addresses a tunnel of that mapping — any identity, any credentials, any
+tunnel state — is refused (failure ack, nothing attached, no traffic). -/
+theorem revoke_survives_updates (w : World) (m : PortMapping) (pre post : List Update)
+    (id : ConnIdent) (req : Req) (ts : TunnelState) (hwf : identWF id = true)
+    (hw : w.getPortMapping (tunnelMappingID req ts) = some (runSerial (pre ++ .revoke :: post) m)) :
+    (runSerial (pre ++ .revoke :: post) m).IsRevoked = true ∧
+    openTunnel w id req ts = refuse ∧
+    holdsRevoked (runSerial (pre ++ .revoke :: post) m).IsRevoked ((openTunnel w id req ts).obs ts) = true := by
+  have hr : (runSerial (pre ++ .revoke :: post) m).IsRevoked = true := by
+    rw [runSerial_append]
+    have : runSerial (.revoke :: post) (runSerial pre m) = runSerial post (Update.revoke.apply (runSerial pre m)) := by
+      simp [runSerial, List.foldl]
+    rw [this]
+    exact runSerial_revoked post _ (by simp [Update.apply])
+  have href : openTunnel w id req ts = refuse :=
+    unusable_mapping_refused w id req ts hwf (fun m' hm' => by
+      rw [hw] at hm'; cases hm'; exact revoked_unusable hr)
+  refine ⟨hr, href, ?_⟩
+  rw [href, hr]; rfl
+
+def mM : PortMapping := ⟨"M", 11, 22, "s3cretM", "active", false, none⟩
+
+/-- As found (no lock): the usage update of a tunnel open reads the record, the revocation reads, writes and
+returns, the usage update writes its stale copy back — the record is active again … -/
+theorem asFound_revoke_lost :
+    (runInterleaved [.usage, .revoke] [.read 0, .read 1, .write 1, .write 0] mM).IsRevoked = false := by decide
+
+/-- … and the target client presenting the secret is attached to the waiting tunnel: the property fails. -/
+theorem asFound_revoke_lost_witness :
+    holdsRevoked (runInterleaved [.usage, .revoke] [.read 0, .read 1, .write 1, .write 0] mM).IsRevoked
+      ((openTunnel ⟨[runInterleaved [.usage, .revoke] [.read 0, .read 1, .write 1, .write 0] mM], 1000, "node-A"⟩
+          ⟨true, 22, true⟩ ⟨true, "M", "verif-tunnel-01", "s3cretM", ""⟩ (.bridge "M" false)).obs (.bridge "M" false))
+      = false := by decide
+
+-- the same threads, not interleaved, are what `runSerial` says (the interleaved semantics is not vacuous)
+example : runInterleaved [.usage, .revoke] [.read 0, .write 0, .read 1, .write 1] mM = runSerial [.usage, .revoke] mM := by decide
+example : runInterleaved [.usage, .revoke] [.read 1, .write 1, .read 0, .write 0] mM = runSerial [.revoke, .usage] mM := by decide
+example : (runSerial [.stats, .revoke, .usage, .status "active"] mM).IsRevoked = true := by decide
+
+/-- the per-mapping lock is the first thing each of these updates takes, before it reads -/
+theorem skel_rmw_locked :
+    Skel.conncode_RecordMappingUsage =
+      ["repos.LockPortMapping", "portMappingService.GetPortMapping", "portMappingService.UpdatePortMapping"] ∧
+    Skel.conncode_RevokeMapping =
+      ["repos.LockPortMapping", "portMappingService.GetPortMapping", "mapping.Revoke", "portMappingService.UpdatePortMapping"] ∧
+    Skel.repo_UpdatePortMappingStats = ["LockPortMapping", "r.GetPortMapping", "r.UpdatePortMapping"] ∧
+    Skel.repo_UpdatePortMappingStatus = ["LockPortMapping", "r.GetPortMapping", "r.UpdatePortMapping"] := by decide
+
 /-! ## T2: the order of effectful steps in the source is the one the model assumes -/
 
 /-- `handleTunnelOpen`: control-connection lookup and `HandleTunnelOpen` come BEFORE the bridge lookup, the
@@ -313,5 +380,11 @@ example : openTunnelDyn wTwo targetOfF secretReqF .none (.route "M" "node-B" fal
 -- tree where `processCrossNodeForward` takes the local-bridge shortcut before comparing the mappings)
 example : holdsDyn wTwo targetOfF secretReqF .none (.route "M" "node-A" true) ⟨.ok, .target, true⟩ = false := by decide
 example : holdsDyn wTwo targetOfF secretReqF .none (.route "M" "node-A" true) ⟨.ok, .none, false⟩ = true := by decide
+
+-- a bridge registered in the window between the dispatcher's look-up and handleTargetBridge's look-up
+example : openTunnelDyn wTwo targetClient secretReq .none (.window "M") = ⟨.ok, .target, .switch⟩ := by decide
+example : openTunnelDyn wTwo targetOfF secretReqF .none (.window "M") = ⟨.ok, .none, .err⟩ := by decide
+example : openTunnelDyn wTwo listenClient midReq .none (.window "F") = ⟨.ok, .none, .err⟩ := by decide
+example : holdsDyn wTwo targetOfF secretReqF .none (.window "M") ⟨.ok, .target, true⟩ = false := by decide
 
 end Tunnox.C04
